@@ -271,15 +271,17 @@ def _grid(which):
 DEEP_A = _params(0.6, 0.2, 0.05, 1, 1, 1)
 DEEP_B = _params(0.7, 0.4, 0.1, 0, 2, 4)
 DEEP_C = _params(0.5, 0.2, 0.05, 2, 1, 1)
-# dyadic decay factor + warning level 1/2 (both warning bounds are the median): the
-# statistic lands exactly on each of the four bounds; exact arithmetic, ties strict
-TIE_CFGS = [_params(0.5, 0.5, 0.25, 0, 1, 4), _params(0.5, 0.5, 0.25, 2, 1, 1)]
+# dyadic decay factor + wide levels: the statistic lands exactly on each of the
+# four bounds (exact arithmetic, ties enforced strictly).  Chosen by a model-only
+# scan over seeds 0..11: every bound side has >= 290 exact ties for every seed
+# (lb_detect ties are the rare ones; a single parameter set had none for seed 1).
+TIE_CFGS = [_params(0.5, 0.4, 0.3, 0, 1, 4), _params(0.5, 0.5, 0.25, 2, 1, 1)]
 SUBSET_BASES = [(0.6, 0.4, 0.1, 0, 1, 1), (0.7, 0.2, 0.05, 1, 1, 4)]
 
 
 def _dfs_families(tier):
     if tier == "quick":
-        return [("grid", _grid("cover"), 6, 1), ("deep", [DEEP_A], 7, 2), ("ties", TIE_CFGS[:1], 6, 1)]
+        return [("grid", _grid("cover"), 6, 1), ("deep", [DEEP_A], 7, 2), ("ties", TIE_CFGS, 6, 1)]
     return [
         ("ties", TIE_CFGS, 7, 1),
         ("grid", _grid("full"), 6, 1),
@@ -408,7 +410,7 @@ def describe(tier):
             ],
             "grid": "time_decay_factor {0.5,0.6,0.7,0.9} x levels %s x burn_in {0,1,2} x subsample {1,2} x "
             "round_val {4,1}, num_mc %d; 'grid' = %s, 'grid7'/quick 'grid' = a 24-member pairwise covering array of it; 'ties' = decay 0.5, "
-            "levels (0.5, 0.25)"
+            "levels (0.4, 0.3) and (0.5, 0.25)"
             % (LEVELS, NUM_MC, "the full 144 product" if tier == "thorough" else "the covering array"),
             "rates_tracked_subsets": "all 15 non-empty subsets at depth 6 x %d parameter set(s), plus one "
             "permuted order of all four" % (1 if tier == "quick" else 2),
